@@ -167,6 +167,7 @@ def sources(ctx):
     ex = c02.exhaustive_sources()
     ctx.rng.shuffle(ex)
     out += ex[:ctx.scale(250, len(ex))]
+    rest_of_exhaustive = ex[ctx.scale(250, len(ex)):]
     sg = scopegen.exhaustive(False)
     ctx.rng.shuffle(sg)
     out += sg[:ctx.scale(150, 2500)]
@@ -175,6 +176,7 @@ def sources(ctx):
     out += tp[:ctx.scale(150, len(tp))]
     out += [('adv%d' % i, s) for i, s in enumerate(c12.ADVERSARIAL_SOURCES)]
     out += [('fstr%d' % i, s) for i, s in enumerate(c12.fstring_sources(ctx, ctx.scale(300, 3000)))]
+    out += [('curly%d' % i, s) for i, s in enumerate(c12.curly_field_sources())]
     out += [('extreme%d' % i, s) for i, s in enumerate(EXTREMES)]
     for i in range(ctx.scale(120, 4000)):
         r = gen.normalise(gen.gen_module(ctx.rng, ctx.rng.randint(1, 3)))
@@ -184,6 +186,7 @@ def sources(ctx):
     out += scopegen.parameter_programs() + scopegen.declaration_programs() + scopegen.import_programs()
     short = scopegen.short_named(sg[:ctx.scale(100, 2500)])
     out += short
+    ctx._c08_rest = rest_of_exhaustive
     return out
 
 
@@ -195,6 +198,11 @@ def run(ctx):
             ctx.notes.append('stopped by budget')
             break
         check_source(ctx, ident, src, quick_sets, 'generated')
+    # the rest of the exhaustive slot x class expression programs: defaults and everything-off only
+    for ident, src in getattr(ctx, '_c08_rest', []):
+        if ctx.time_left() < 30:
+            break
+        check_source(ctx, ident, src, osets[:2], 'exhaustive-rest')
     files = sorted(glob.glob(os.path.join(common.VERIF, 'corpus', 'stdlib', '*.py')))
     if ctx.tier == 'quick':
         files = ctx.rng.sample(files, 8)
